@@ -25,6 +25,125 @@ def scenarios(hists, rng, start, init, threads, rounds, other_every=3):
     return out
 
 
+TOK = {"tok-alice": {"name": "alice", "groups": ["g1", "system:authenticated"], "extra": {}}}
+M_HTTP = 2
+
+
+def dispatch_scenario(sid, hist):
+    """Dispatch.tla history -> proxyh scenario: real HTTP requests under a max-in-flight schema (limit 2) ending in every way"""
+    cl = {"name": "c1", "aliases": [], "servers": [{"stub": 0, "disabled": False}, {"stub": 1, "disabled": False}, {"stub": 2, "disabled": True}],
+          "policies": [{"resources": ["slot"], "nonres": [], "subset": [], "flow": "fm"}, {"resources": ["slotnoep"], "nonres": [], "subset": [2], "flow": "fm"}],
+          "flows": [{"name": "fm", "type": "mif", "max": M_HTTP}], "gates": ""}
+    steps = [{"k": "apply", "cluster": cl}, {"k": "waitready", "name": "c1", "ready": [0, 1]}]
+    live = {}
+    nm = 0
+
+    def measure():
+        nonlocal nm
+        nm += 1
+        return [{"k": "quiesce"}, {"k": "slots", "id": "m%d" % nm, "host": "c1", "path": "/api/v1/namespaces/d/slot", "token": "tok-alice", "n": M_HTTP + 1, "g": M_HTTP}]
+    for h in hist:
+        rid = "r%d" % h["id"]
+        if h["e"] == "start":
+            k = h["k"]
+            rq = {"k": "req", "id": rid, "host": "c1", "method": "GET", "path": "/api/v1/namespaces/d/slot", "token": "tok-alice", "async": True, "kind": k}
+            if k == "noep":
+                rq["path"] = "/api/v1/namespaces/d/slotnoep"
+                rq["async"] = False
+            else:
+                rq["resp"] = {"ok": {"gate": True, "status": 200, "bodySize": 10}, "uperr": {"gate": True, "mode": "abort"}, "midabort": {"gate": True, "mode": "midabort"},
+                              "cabort": {"mode": "hang"}, "cabortmid": {"mode": "stream"}}[k]
+                live[rid] = k
+            steps.append(rq)
+        elif h["e"] == "finish":
+            steps += [{"k": "finish", "id": rid, "how": "cancel" if h["k"].startswith("cabort") else "go"}, {"k": "quiesce"}]
+            live.pop(rid, None)
+        else:
+            steps += measure()
+    for rid, k in list(live.items()):
+        steps += [{"k": "finish", "id": rid, "how": "cancel" if k.startswith("cabort") else "go"}, {"k": "quiesce"}]
+    steps += measure()
+    steps.append({"k": "req", "id": "end-marker", "host": "nobody", "method": "GET", "path": "/version", "token": "tok-alice"})
+    return {"id": sid, "stubs": 3, "tokens": TOK, "authz": [], "authzDefault": "deny", "steps": steps}
+
+
+def dispatch_part(v, tier, seed, rng, wd, replay_sc=None):
+    """C05 second sentence over real HTTP.  Returns (states, transitions, evaluations, traces)"""
+    states = trans = 0
+    if replay_sc is not None:
+        scs = [replay_sc]
+    else:
+        for consts, expect in (({}, False), ({"Leak": '"noep"'}, True), ({"Leak": '"cabort"'}, True), ({"Twice": '"midabort"'}, True)):
+            dm = vlib.tlc("flow", "Dispatch", "Dispatch.cfg", workers=4, timeout=600, consts=dict(consts, MaxSteps=9))
+            if bool(dm.violation) != expect:
+                raise Infra("Dispatch.tla %s: unexpected result %s" % (consts, dm.violated()))
+            states, trans = states + dm.distinct, trans + dm.generated
+        n = 24 if tier == "quick" else 300
+        g = vlib.tlc("flow", "DispatchGen", "DispatchGen.cfg", workers=1, timeout=600, simulate="num=%d" % (n * 2), depth=13, tlc_seed=seed)
+        hs = list({vlib.canon(h): h for h in g.json_prints("HIST")}.values())
+        rng.shuffle(hs)
+        if len(hs) < 10:
+            raise Infra("too few dispatch histories")
+        scs = [dispatch_scenario(900001 + i, h) for i, h in enumerate(hs[:n])]
+        # every kind alone, and all kinds in flight one after the other
+        for i, k in enumerate(["ok", "uperr", "midabort", "cabort", "cabortmid", "noep"]):
+            hist = []
+            for j in range(3):
+                hist += [{"e": "start", "id": j + 1, "k": k}] + ([{"e": "finish", "id": j + 1, "k": k}] if k != "noep" else [])
+            scs.append(dispatch_scenario(910001 + i, hist))
+    binp = os.path.join(wd, "proxyh.test")
+    vlib.go_test_build("./proxyh", binp)
+    traces, crashed = vlib.run_test_driver(binp, scs, wd, timeout=1500, name="dispatch")
+    sc_by_id = {str(s["id"]): s for s in scs}
+    for sid, tail in crashed.items():
+        if "HARNESS-INFRA" in tail:
+            raise Infra("proxyh: " + tail[-600:])
+        v.violation("crash-%s" % sid, {"scenario": sc_by_id[sid], "what": "gateway process crashed", "stderr_tail": tail})
+    tl = []
+    for sid, t in traces.items():
+        kinds = {s["id"]: s.get("kind") for s in sc_by_id[sid]["steps"] if s["k"] == "req" and s.get("kind")}
+        arrived, code = set(), {}
+        evs = []
+        order = []
+        for e in t["events"]:
+            if e["k"] == "send" and e["id"] in kinds:
+                order.append(("start", e["id"], e["seq"]))
+            elif e["k"] == "arrive":
+                arrived.add(e["id"])
+            elif e["k"] == "response" and "status" in e:
+                code[e["id"]] = e["status"]
+            elif e["k"] == "finished":
+                order.append(("finish", e["id"], e["seq"]))
+            elif e["k"] == "slots":
+                order.append(("slots", e, e["seq"]))
+        for kind, x, _ in order:
+            if kind == "start":
+                k = kinds[x]
+                adm = (x in arrived) if k != "noep" else code.get(x) == 503
+                evs.append({"k": "start", "id": x, "kind": k, "admitted": adm, "code": code.get(x, 0) if k == "noep" else 0, "want": 0})
+            elif kind == "finish":
+                evs.append({"k": "finish", "id": x, "kind": "", "admitted": False, "code": 0, "want": 0})
+            else:
+                evs.append({"k": "slots", "id": x["id"], "kind": "", "admitted": x["admitted"], "code": 0, "want": x["want"]})
+        tl.append({"id": int(sid), "m": M_HTTP, "events": evs})
+    tr_p = os.path.join(wd, "dispatch.ndjson")
+    vlib.write_ndjson(tr_p, tl)
+    tv = vlib.tlc("flow", "TraceDispatch", "TraceDispatch.cfg", workers=8, timeout=1800, consts={"TraceFile": '"%s"' % tr_p})
+    by_id = {str(t["id"]): t for t in tl}
+    nrej = 0
+    for l in tv.out.splitlines():
+        if l.startswith('<<"REJECT"'):
+            parts = [x.strip().strip('"') for x in l.strip("<>").split(",")]
+            sid, line = parts[1], int(parts[2])
+            nrej += 1
+            v.violation("dispatch-%s" % sid, {"scenario": sc_by_id[sid], "kind": "dispatch", "rejected_event": by_id[sid]["events"][line - 1], "events_before": by_id[sid]["events"][:line - 1],
+                                              "what": "a request was admitted while M were unfinished" if parts[3] == "start" else
+                                                      "after all requests had finished the schema did not admit exactly M new ones: a slot leaked or was given back twice"})
+    evals = sum(1 for t in tl for e in t["events"] if e["k"] in ("start", "slots"))
+    return states + tv.distinct, trans + tv.generated, evals, len(tl) - nrej, {"dispatch_requests_by_kind": {k: sum(1 for t in tl for e in t["events"] if e["k"] == "start" and e["kind"] == k) for k in ("ok", "uperr", "midabort", "cabort", "cabortmid", "noep")},
+                                                                             "dispatch_slot_measurements": sum(1 for t in tl for e in t["events"] if e["k"] == "slots")}
+
+
 def main(tier, replay):
     t0 = time.time()
     seed = vlib.seed()
@@ -34,6 +153,13 @@ def main(tier, replay):
     try:
         states = trans = 0
         mc_runs = []
+        dextra, devals, dtraces = {}, 0, 0
+        if replay and json.load(open(replay)).get("kind") == "dispatch":
+            dispatch_part(v, tier, seed, rng, wd, replay_sc=json.load(open(replay))["scenario"])
+            return v.finish()
+        if not replay:
+            ds, dt, devals, dtraces, dextra = dispatch_part(v, tier, seed, rng, wd)
+            states, trans = states + ds, trans + dt
         if not replay:
             # 1. L1 => L0: every interleaving of the modelled algorithm is accepted by the monitor
             configs = [dict(Threads="{1, 2}", Rounds=2, MaxCfg=1, Cfgs="CfgsSmall", InitCfg="Init1"),
@@ -129,9 +255,9 @@ def main(tier, replay):
         rc = v.finish()
         nontriv = sum(1 for t in traces if any(e.get("op") == "cfg" for e in t["events"]) or any(e.get("res") is False for e in t["events"]))
         cov = {"states": states + tv.distinct, "transitions": trans + tv.generated,
-               "traces_validated_against_impl": len(traces) - len(rejected),
+               "traces_validated_against_impl": len(traces) - len(rejected) + dtraces,
                "samples": [traces[0], traces[len(traces) // 2]],
-               "evaluations": len(traces), "distinct_nontrivial": len({vlib.canon(t["events"]) for t in traces}),
+               "evaluations": len(traces) + devals, "http_level": dextra, "distinct_nontrivial": len({vlib.canon(t["events"]) for t in traces}),
                "rule": "distinct call/return histories recorded from the real limiter; scenarios = all operation-level interleavings of "
                        "2 threads x 2 rounds x <=2 reconfigurations (TLC MifGenOps), sampled fine-grained L1 prefixes (MifGen), random 3-thread scenarios, free-running goroutines",
                "model_checking_runs": mc_runs, "histories_with_reconfig_or_refusal": nontriv, "free_running_traces": nfree * 2,
@@ -139,7 +265,9 @@ def main(tier, replay):
         vlib.write_evidence(PROP, tier, "model_checking", cov, time.time() - t0, len(v.violations),
                             ["L0 = MifMon.tla: linearizability w.r.t. the max-in-flight object, tolerant for acquires overlapping a reconfiguration or any other operation (refusals)",
                              "schedule points are the sync/atomic operations of golib/lock/maxinflight, pkg/flowcontrols{,/remote,/util} (import substitution at build time)",
-                             "dispatcher exit paths (release exactly once on every way a proxied request ends) are covered by the HTTP-level part of this check when present"])
+                             "second sentence (every admitted request gives its slot back exactly once however it ends): Dispatch.tla histories replayed as real HTTP requests through the real gateway "
+                             "(harness proxyh, limit 2): upstream answers / closes the connection / dies mid-body (handler aborted by a panic) / client gives up before or during the response / no ready endpoint; "
+                             "the number of requests the schema admits is MEASURED at quiescence (a transient shortfall while a request is still unwinding is re-measured, the last result counts)"])
         return rc
     finally:
         shutil.rmtree(wd, ignore_errors=True)
